@@ -12,6 +12,7 @@ use std::collections::BTreeSet;
 struct CaseIn {
     wasm: Vec<u8>,
     preserve_ct: bool,
+    loc_mod: bool,
     gc: bool,
     expected: Result<Vec<u8>, ()>,
 }
@@ -33,7 +34,7 @@ fn read_cases(p: &str) -> Vec<CaseIn> {
         let ok = b[i + 1];
         i += 2;
         let exp = rd(&mut i);
-        v.push(CaseIn { wasm, preserve_ct: flags & 1 != 0, gc: flags & 2 != 0, expected: if ok == 1 { Ok(exp) } else { Err(()) } });
+        v.push(CaseIn { wasm, preserve_ct: flags & 1 != 0, gc: flags & 2 != 0, loc_mod: flags & 4 != 0, expected: if ok == 1 { Ok(exp) } else { Err(()) } });
     }
     v
 }
@@ -69,6 +70,9 @@ impl walrus::CustomSection for CtDump {
 fn walrus_run(c: &CaseIn) -> Result<Vec<u8>, String> {
     let mut cfg = walrus::ModuleConfig::new();
     cfg.preserve_code_transform(c.preserve_ct);
+    if c.loc_mod {
+        cfg.on_instr_loc(|pos| walrus::InstrLocId::new((*pos % 7) as u32));
+    }
     let r = std::panic::catch_unwind(std::panic::AssertUnwindSafe(|| -> Result<Vec<u8>, String> {
         let mut m = cfg.parse(&c.wasm).map_err(|e| format!("{:#}", e))?;
         if c.preserve_ct {
